@@ -483,6 +483,14 @@ func (m *model) onReq(opIdx int, c *clientRec, snap snapshot) {
 	}
 }
 
+// hfpOf: the hit-for-pass period of a cache (the second cache may leave it unset: 300 s)
+func (m *model) hfpOf(cacheIdx int) int {
+	if cacheIdx == 1 && m.sc.Cfg.HFP2Unset && !m.sc.Cfg.SharedCache {
+		return 300
+	}
+	return m.hfpD
+}
+
 func (m *model) clientByID(id int) *clientRec {
 	m.w.mu.Lock()
 	defer m.w.mu.Unlock()
@@ -614,7 +622,7 @@ func (m *model) onUpstreamEnd(opIdx int, u *upReq, snap snapshot) {
 			g.stored = &storedRec{t0: g.t0, L: L, T: g.T, upAge: g.upAge, serial: g.serial, status: g.status, bodyLen: g.bodyLen}
 		} else {
 			g.cacheable = false
-			g.D = m.hfpD
+			g.D = m.hfpOf(g.cache)
 			g.state = "hfp"
 			g.stored = &storedRec{hfp: true, t0: g.t0, D: g.D}
 			m.stats.FailedFetches++
@@ -675,7 +683,7 @@ func (m *model) resolveAmb(g *gen, c *clientRec, u *upReq, snap snapshot) {
 			g.bodyLen = u.Out.BodyLen
 			g.stored = &storedRec{t0: g.t0, L: L, T: g.T, upAge: g.upAge, serial: g.serial, status: g.status, bodyLen: g.bodyLen}
 		} else if c.XStatus == "fetching" {
-			g.cacheable, g.D, g.state = false, m.hfpD, "hfp"
+			g.cacheable, g.D, g.state = false, m.hfpOf(g.cache), "hfp"
 			g.stored = &storedRec{hfp: true, t0: g.t0, D: g.D}
 		} else {
 			g.state = "wild"
